@@ -10,8 +10,9 @@ import sys, os, subprocess, shutil, json, time, re
 prop, seeddir, letter = sys.argv[1], sys.argv[2], sys.argv[3]
 docheck = '--no-check' not in sys.argv
 ROOT = '/verif'
-scratch = '/tmp/sc_%s_%s' % (prop, letter)
-out = os.path.join(ROOT, 'seeded', '%s-%s' % (prop, letter))
+scratch = '/tmp/sc_%s_%s_%d' % (prop, letter, os.getpid())
+outletter = sys.argv[sys.argv.index('--as') + 1] if '--as' in sys.argv else letter
+out = os.path.join(ROOT, 'seeded', '%s-%s' % (prop, outletter))
 patch = os.path.join(seeddir, '%s.diff' % letter)
 demo = os.path.join(seeddir, 'demo%s.cpp' % letter)
 
@@ -52,7 +53,7 @@ def run_demo(exe, n):
     return rcs
 
 
-meta = dict(property=prop, letter=letter, source='independent sub-agent given only the property text and a scratch worktree')
+meta = dict(property=prop, letter=outletter, source='independent sub-agent given only the property text and a scratch worktree')
 # without the patch
 prep(False)
 exe = build_demo('clean')
@@ -85,7 +86,7 @@ if meta['confirmed']:
     shutil.copy(demo, os.path.join(out, 'demo.cpp'))
     notes = os.path.join(seeddir, 'notes.md')
     if os.path.exists(notes):
-        shutil.copy(notes, os.path.join(out, 'notes-%s.md' % letter))
+        shutil.copy(notes, os.path.join(out, 'notes-%s.md' % outletter))
     old = {}
     mp = os.path.join(out, 'meta.json')
     if os.path.exists(mp):
